@@ -426,7 +426,7 @@ func interpretCommands(typ int, g []uint32) (orb.Geometry, error) {
 		return nil, fmt.Errorf("geometry type %d is not POINT, LINESTRING or POLYGON", typ)
 	}
 	var cx, cy int64
-	var pts []orb.Point    // POINT
+	var pts []orb.Point     // POINT
 	var parts [][]orb.Point // finished lines / rings
 	var cur []orb.Point
 	flush := func() error {
